@@ -240,3 +240,42 @@ def register(reg):
 
     for d in (1, 2, 3):
         map_contract(d)
+    attach_generators(reg)
+
+
+# ---------------------------------------------------------------------- input generators (witness search)
+
+def gen_nested(rng, depth, finite, allow_empty_tail=False):
+    """random (values, offsets tuple) of a list array with `depth` offset levels; every innermost range has
+    at least one vertex (so the first vertex is readable)"""
+    from pyvc.witness import gen_float
+    n_inner = rng.choice([1, 1, 2, 3, 4])
+    inner = [0]
+    for _ in range(n_inner):
+        inner.append(inner[-1] + 2 * rng.choice([1, 1, 2, 3, 4, 5]))
+    values = [gen_float(rng, finite) for _ in range(inner[-1])]
+    levels = [inner]
+    for _ in range(depth - 1):
+        below = len(levels[0]) - 1
+        cuts = sorted(rng.sample(range(below + 1), k=min(below + 1, rng.choice([0, 1, 2])))) if below > 0 else []
+        lvl = [0] + cuts + [below]
+        levels.insert(0, lvl)
+    arrs = [{'k': 'array', 'dtype': 'uint32', 'shape': [len(l)], 'data': l} for l in levels]
+    return ({'k': 'array', 'dtype': 'float64', 'shape': [len(values)], 'data': values}, arrs)
+
+
+def _map_gen(depth):
+    def gen(rng, config):
+        fn = rng.choice(['compute_line_length', 'compute_area'])
+        values, offs = gen_nested(rng, depth, finite=(fn == 'compute_area'))
+        n = offs[0]['shape'][0] - 1
+        extra = rng.choice([0, 0, 1])
+        result = {'k': 'array', 'dtype': 'float64', 'shape': [n + extra], 'data': ['nan'] * (n + extra)}
+        missing = {'k': 'array', 'dtype': 'bool', 'shape': [n + extra], 'data': [rng.random() < 0.3 for _ in range(n + extra)]}
+        return [{'k': 'func', 'name': fn}, result, values, {'k': 'tuple', 'items': offs}, missing]
+    return gen
+
+
+def attach_generators(reg):
+    for d in (1, 2, 3):
+        reg.by_target[BL + f'::_geometry_map_nested{d}'].gen = _map_gen(d)
